@@ -411,7 +411,7 @@ def run(ctx, prog, res):
             except terms.TermError:
                 lens = [None, None]
             if "inf" in lens or None in lens:
-                r5.ok({"fn": f.id, "zip_lengths": ["unbounded" if x == "inf" else ("unknown" if x is None else x) for x in lens]})
+                r5.ok({"fn": f.id, "zip_lengths": ["unbounded" if x == "inf" else ("unknown" if x is None else {str(k_): v_ for k_, v_ in x.items()}) for x in lens]})
                 continue
             diff = terms.lin_sub(lens[0], lens[1])
             diff = {key_: c for key_, c in diff.items() if c != 0}
